@@ -465,6 +465,15 @@ func runC11(c *Ctx) {
 				c.Check(PParam("consumerId")(arg(cl, 1)), fk(f, "calls", shortName(q(callee))), cl, "cleanup of the consumerId parameter")
 			}
 		}
+		// both channel indexes go whenever a channel was bound (also when it is already closed)
+		chFound := ABool("channel bound", PCall("pk.Keeper.GetConsumerIdToChannelId", 1, nil, nil, PParam("consumerId")))
+		for _, callee := range []string{"pk.Keeper.DeleteConsumerIdToChannelId", "pk.Keeper.DeleteChannelIdToConsumerId"} {
+			if cl := c.one(f, false, callee); cl != nil {
+				for _, r := range successReturns(f) {
+					c.MustPassWhen(r, []ssa.Instruction{cl}, fk(f, "channel-binding-removed", shortName(q(callee))), T(chFound))
+				}
+			}
+		}
 		if cl := c.one(f, false, "pk.Keeper.chanCloseInit"); cl != nil {
 			c.Check(PCall("pk.Keeper.GetConsumerIdToChannelId", 0, nil, nil, PParam("consumerId"))(arg(cl, 1)), fk(f, "closes-own-channel"), cl, "closes the channel bound to this consumer")
 		}
